@@ -79,7 +79,8 @@ func (m *machine) reset() {
 }
 
 func (m *machine) step() {
-	if m.dead || len(m.ws) == 0 || len(m.ws) > 400 {
+	if m.dead || len(m.ws) == 0 || len(m.ws) > 400 || !m.w.validIDs(m.models()...) {
+		// (also when a shift carried a voxel out of the altitude range: later steps take valid IDs only)
 		m.reset()
 		return
 	}
